@@ -29,6 +29,8 @@ def check(ctx):
     ctx.run(E.rule_counting_agreement, "C05.W2", er)
     ctx.run(E.rule_one_callback_per_dequeue, "C05.W2", er)
     ctx.run(E.rule_queue_effects, "C05.W2", er)
+    ctx.run(E.rule_enqueue_after_success, "C05.W2", er)
+    ctx.run(E.rule_callbacks_only_via_engine, "C05.T1", er, [rr.runcb, rr.stalecb])
     from .extra import rule_fresh_time_untouched
     ctx.run(rule_fresh_time_untouched, "C05.T1", rr)
     ctx.run(S.rule_owner_writes_only, "C05.T1", rr)
